@@ -85,7 +85,8 @@ def pinned_names() -> None:
 
 
 def mutants(which: str) -> None:
-    ids = sorted(CATCHES) if which == "all" else [x for x in which.split(",") if x]
+    every = sorted(os.path.basename(x) for x in __import__("glob").glob(os.path.join(VERIF, "seeded", "*")))
+    ids = every if which == "all" else [x for x in which.split(",") if x]
     for mid in ids:
         pd = os.path.join(VERIF, "seeded", mid, "patch.diff")
         if not os.path.exists(pd):
@@ -97,7 +98,7 @@ def mutants(which: str) -> None:
             a = subprocess.run(["git", "-C", wt, "apply", pd], capture_output=True, text=True)
             if a.returncode != 0:
                 fail("%s does not apply to the current tree: %s" % (mid, a.stderr.strip()))
-            for chk in CATCHES[mid]:
+            for chk in CATCHES.get(mid, [mid.split("-")[0]]):
                 r = subprocess.run([os.path.join(VERIF, "check"), chk, "--tier", "quick"], env=dict(os.environ, VERIF_REPO=wt, VERIF_KEEP_EVIDENCE="1"),
                                    capture_output=True, text=True)
                 if r.returncode != 1 or "VIOLATION property=%s" % chk not in r.stdout:
